@@ -59,6 +59,7 @@ def build(tables_present, versions_variant, exprs_on, ff):
         _auxdata.cfi_directives.set(m, {
             gtirb.Offset(blocks[0], 0): [(".cfi_startproc", [], NULL_UUID), (".cfi_personality", [0x9B], S["A"]), (".cfi_lsda", [0x1B], S["K1"])],
             gtirb.Offset(blocks[1], 0): [(".cfi_lsda", [0x1B], S["B"]), (".cfi_undefined", [3], S["A"]), (".cfi_personality", [0], S["K2"])],
+            gtirb.Offset(blocks[2], 0): [(".cfi_undefined", [3], S["A"]), (".cfi_lsda", [0x1B], S["B"]), (".cfi_undefined", [4], S["A"]), (".cfi_offset", [5, 8], S["B"])],
         })
     if "elfSymbolVersions" in tables_present:
         defs = {1: (["base"], VER_FLG_BASE), 2: (["V2"], 0), 3: (["V3"], 0)}
@@ -232,6 +233,8 @@ def delete_symbol_harness(ctx):
 
 
 def jobs(tier="quick", seed=0):
+    from . import c19_d
+    yield from c19_d.jobs(tier, seed)
     yield Job("C19/delete_symbol", delete_symbol_harness, setup=lambda: shims.installed([RW]), kind="D",
               func="gtirb_rewriting.rewriting:RewritingContext.delete_symbol")
     yield Job("C19/delete_symbols-bounded", bounded(tier, seed), kind="B", func="gtirb_rewriting._modify.delete_symbols:delete_symbols")
